@@ -107,7 +107,7 @@ static void run() {
     auto &a = vp::args();
     vp::CaseScope scope([] { return ser_case(g_cur); });
     vp::stats().rule = "enum/random: all 18 emit entry points (4 requests, ACK with/without payload, 11 error responses, 2 meta) x {serial, tcp} x {8, 16}-bit memory x request kinds, with addresses and "
-                       "sequence numbers at the edges, payloads rich in SLIP control octets, sinks that take whole calls / one octet per call / short writes mixed with EINTR, total lengths across the varint boundaries 127/128 and 16383/16384 and payloads across 2^16 and 2^17 octets; oracle = reference encoder octets + "
+                       "sequence numbers at the edges, payloads rich in SLIP control octets, sinks that take whole calls / one octet per call / short writes mixed with EINTR, a SLIP control octet behind every run length 0..300 of ordinary payload octets, total lengths across the varint boundaries 127/128 and 16383/16384 and payloads across 2^16 and 2^17 octets; oracle = reference encoder octets + "
                        "the library's own receiver reports the same fields; request sequence numbers increase by one modulo 2^16 (session of 70000 requests)";
     vp::stats().exhaustive = false;
     vp::Rng rng(a.seed * 15013 + a.shard);
@@ -141,6 +141,19 @@ static void run() {
         Case c{entry, (bool)serial, mem16, false, mem16, (uint16_t)rng.next(), (uint32_t)rng.next(), (uint32_t)(entry == 3 || (entry == 4 && mem16) ? pl / 2 : pl), 0, gen_payload(rng, pl), true};
         run_case(c);
         vp::nontrivial(vp::fnv(ser_case(c))); vp::cls("length-across-varint-boundary");
+    }
+    // a SLIP control octet behind a run of k ordinary payload octets, every k up to 300 (header octets precede the run on the wire)
+    for (size_t k = 0; k <= 300; k++) for (uint8_t ctl : {(uint8_t)0xc0, (uint8_t)0xdb}) {
+        if (idx++ % a.nshards != a.shard) continue;
+        Bytes pl(k); for (size_t i = 0; i < k; i++) pl[i] = (uint8_t)('a' + i % 25);
+        pl.push_back(ctl);
+        bool even = pl.size() % 2 == 0;
+        int entry = (k % 3 == 0) ? 4 : (even && k % 3 == 1) ? 3 : 2;
+        bool mem16 = entry == 4 && even && (k & 4);
+        Case c{entry, true, mem16, false, mem16, (uint16_t)(0x0101 + k), 0x01010101u, (uint32_t)(entry == 3 || (entry == 4 && mem16) ? pl.size() / 2 : pl.size()), 0, pl, (bool)(k & 1)};
+        c.snkmode = (int)(k % 3);
+        run_case(c);
+        vp::nontrivial(vp::fnv(ser_case(c))); vp::cls("control-octet-behind-run-of-k-ordinary-octets");
     }
     // random
     size_t nrand = (a.thorough() ? 400000 : 30000) / a.nshards;
